@@ -203,6 +203,11 @@ c06b_run(const c06b_case *c, c06b_out *out) {
 	gb_out = out;
 	tp_harness_reset(&c->plans);
 	g_close_unknown_passthrough = 0;
+	{
+		tp_res_stats rs0;
+		tp_res_get(&rs0);
+		out->base_live_fds = rs0.live_fds; /* the static pool of part (a) lives in the same process */
+	}
 	atomic_store(&gb_done, 0);
 	atomic_store(&gb_fence, 0);
 	tp_settings_def(&s);
@@ -313,5 +318,4 @@ c06b_run(const c06b_case *c, c06b_out *out) {
 		if (gb_sp[ch][1] >= 0) close(gb_sp[ch][1]);
 	}
 	tp_res_get(&out->res);
-	tp_res_cleanup();
 }
